@@ -458,6 +458,7 @@ type DFA struct {
 	Def, Nxt, Chk    []uint32
 	EC               []uint32 // 256 entries, identity when the table is absent
 	Flags            uint16
+	XTable           []string // exec target table of the profile (file automaton only)
 }
 
 func parseDFA(d []byte) (*DFA, error) {
@@ -675,6 +676,34 @@ func viewRaw(d *DFA, s uint32) string {
 	return fmt.Sprintf("%x/%x", a1, a2)
 }
 
+// viewMeaning: the accept words as the kernel uses them, without what depends on the order of
+// the rules in the text or can never be observed:
+//   - an exec index >= 4 points into the profile's exec target table, whose order follows the
+//     order of the rules: it is replaced by the target it names;
+//   - audit bits are only consulted for permissions that are granted ('audit unix (accept
+//     setopt)' sets both audit bits on every state the rule creates, two rules set one each):
+//     they are masked by the allow bits of their half.
+// Layout (include/file.h, dfa_user_* / dfa_other_*): accept1 = user(allow 0-6, x 7-9, index
+// 10-13) | other << 14; accept2 = user(audit 0-6, quiet 7-13) | other << 14.
+func viewMeaning(d *DFA, s uint32) string {
+	a1, a2 := d.accept(s)
+	half := func(h uint32) string {
+		idx := (h >> 10) & 0xf
+		if idx >= 4 && d.XTable != nil {
+			name := fmt.Sprintf("?%d", idx-4)
+			if int(idx-4) < len(d.XTable) {
+				name = d.XTable[idx-4]
+			}
+			return fmt.Sprintf("%x->%s", h&0x3ff, name)
+		}
+		return fmt.Sprintf("%x", h)
+	}
+	ua, oa := a1&0x7f, (a1>>14)&0x7f
+	a2 &^= (0x7f &^ ua)
+	a2 &^= (0x7f &^ oa) << 14
+	return half(a1&0x3fff) + "|" + half((a1>>14)&0x3fff) + fmt.Sprintf("|%x/%x", a1>>28, a2)
+}
+
 // CompileOne compiles a text holding one profile and returns it.
 func (r Ref) CompileOne(text string) (*CompiledProfile, error) {
 	blob, err := r.Compile(text)
@@ -699,12 +728,17 @@ func EquivalentProfiles(p, q *CompiledProfile) (string, bool) {
 	}
 	for _, which := range []string{"xmatch", "policydb", "file"} {
 		a, b := p.dfaAt(which), q.dfaAt(which)
-		if w, ok := Distinguish(a, b, viewRaw); !ok {
+		if which == "file" {
+			if a != nil {
+				a.XTable = append([]string{}, p.XTable...)
+			}
+			if b != nil {
+				b.XTable = append([]string{}, q.XTable...)
+			}
+		}
+		if w, ok := Distinguish(a, b, viewMeaning); !ok {
 			return fmt.Sprintf("%s automaton differs on %q", which, w), false
 		}
-	}
-	if strings.Join(p.XTable, "\x00") != strings.Join(q.XTable, "\x00") {
-		return fmt.Sprintf("exec target tables differ: %q vs %q", p.XTable, q.XTable), false
 	}
 	return "", true
 }
